@@ -200,6 +200,13 @@ struct VirtualSocket<T, Env> {
 
     #[cfg(feature = "per-connection-metrics")]
     metrics: crate::metrics::PerConnectionMetrics,
+
+    #[cfg(librqbit_utp_verif)]
+    verif_conn_id_recv: SeqNr,
+    #[cfg(librqbit_utp_verif)]
+    verif_ended: bool,
+    #[cfg(librqbit_utp_verif)]
+    verif_on_drop: Box<dyn Fn(bool) + Send + Sync>,
 }
 
 // Updated on every poll
@@ -325,6 +332,111 @@ macro_rules! send_data {
     }};
 }
 
+// Verification hook: an event tagged with this connection's identity.
+#[cfg(librqbit_utp_verif)]
+macro_rules! vs_event {
+    ($self:expr, $kind:expr $(, $k:ident = $v:expr)* $(,)?) => {
+        verif_event!(
+            $self.env,
+            $kind,
+            local = $self.socket.bind_addr(),
+            remote = $self.remote,
+            cid = $self.verif_conn_id_recv
+            $(, $k = $v)*
+        )
+    };
+}
+
+// Verification hook: one data/FIN transmission. A macro, not a method, because the call sites
+// hold a mutable borrow of `user_tx_segments`.
+#[cfg(librqbit_utp_verif)]
+macro_rules! vs_xmit {
+    ($self:expr, $tag:expr, $seq:expr, $len:expr, $count:expr, $probe:expr, $recovering:expr) => {
+        verif_event!(
+            $self.env,
+            "xmit",
+            local = $self.socket.bind_addr(),
+            remote = $self.remote,
+            cid = $self.verif_conn_id_recv,
+            tag = $tag,
+            seq = $seq,
+            len = $len,
+            count = $count,
+            probe = $probe,
+            cwnd = $self.congestion_controller.window(),
+            ssthresh = $self.congestion_controller.sshthresh().min(i64::MAX as usize),
+            mss = $self.segment_sizes.mss(),
+            max_ss = $self.segment_sizes.max_ss(),
+            rto = $self.rtte.retransmission_timeout(),
+            rtt = $self.rtte.roundtrip_time(),
+            pwnd = $self.last_remote_window,
+            rto_retx = $self.rto_retransmissions,
+            recovering = $recovering,
+        )
+    };
+}
+
+#[cfg(librqbit_utp_verif)]
+impl<T: Transport, Env: UtpEnvironment> VirtualSocket<T, Env> {
+    fn verif_timer_us<const N: u8>(&self, t: &Timer<N>) -> i64 {
+        match t.poll_at() {
+            None => -1,
+            Some(at) => at
+                .saturating_duration_since(self.socket_created)
+                .as_micros() as i64,
+        }
+    }
+
+    fn verif_poll_end(&mut self, result: &Poll<crate::Result<()>>) {
+        let (ring_len, ring_cap) = {
+            let c = self.user_tx.consumer.lock();
+            (c.occupied_len(), c.capacity().get())
+        };
+        let flight = self
+            .user_tx_segments
+            .calc_flight_size(self.last_sent_seq_nr);
+        vs_event!(
+            self,
+            "poll",
+            state = self.state.name(),
+            ring_len = ring_len,
+            ring_cap = ring_cap,
+            segmented = self.user_tx_segments.total_len_bytes(),
+            seg_pkts = self.user_tx_segments.total_len_packets(),
+            flight = flight,
+            rx_user = self.user_rx.verif_user_bytes(),
+            rx_parked = self.user_rx.verif_parked_bytes(),
+            rx_slots = self.user_rx.verif_parked_packets(),
+            rnxt = self.last_consumed_remote_seq_nr,
+            last_ack = self.last_sent_ack_nr,
+            last_wnd = self.last_sent_window,
+            unacked = self.consumed_but_unacked_bytes.min(i64::MAX as usize),
+            pwnd = self.last_remote_window,
+            seq_nr = self.seq_nr,
+            last_sent = self.last_sent_seq_nr,
+            mss = self.segment_sizes.mss(),
+            max_ss = self.segment_sizes.max_ss(),
+            cwnd = self.congestion_controller.window(),
+            ssthresh = self.congestion_controller.sshthresh().min(i64::MAX as usize),
+            rto = self.rtte.retransmission_timeout(),
+            rto_retx = self.rto_retransmissions,
+            recovering = self.recovery.is_recovering(),
+            t_rtx = self.verif_timer_us(&self.timers.retransmit),
+            t_ack = self.verif_timer_us(&self.timers.ack_delay_timer),
+            t_inact = self.verif_timer_us(&self.timers.remote_inactivity_timer),
+            t_synack = self.verif_timer_us(&self.timers.syn_ack_resend),
+            pending = self.this_poll.transport_pending,
+        );
+        if let Poll::Ready(r) = result {
+            self.verif_ended = true;
+            match r {
+                Ok(()) => vs_event!(self, "end", result = "ok"),
+                Err(e) => vs_event!(self, "end", result = format!("{e:#}")),
+            }
+        }
+    }
+}
+
 impl<T: Transport, Env: UtpEnvironment> VirtualSocket<T, Env> {
     async fn run_forever(self) -> crate::Result<()> {
         self.await
@@ -380,6 +492,16 @@ impl<T: Transport, Env: UtpEnvironment> VirtualSocket<T, Env> {
                         %header.ack_nr,
                         payload_size = seg.payload_size(),
                         "RTO expired: sent ST_DATA"
+                    );
+                    #[cfg(librqbit_utp_verif)]
+                    vs_xmit!(
+                        self,
+                        "rto",
+                        seg.seq_nr(),
+                        seg.payload_size(),
+                        seg.send_count(),
+                        seg.is_mtu_probe(),
+                        self.recovery.is_recovering()
                     );
 
                     // RTO triggers a bunch of behaviors to reduce congestion and slow everything down.
@@ -511,6 +633,16 @@ impl<T: Transport, Env: UtpEnvironment> VirtualSocket<T, Env> {
                         is_expired = seg.is_expired(),
                         "RECOVERY: sent ST_DATA"
                     );
+                    #[cfg(librqbit_utp_verif)]
+                    vs_xmit!(
+                        self,
+                        "recovery",
+                        seg.seq_nr(),
+                        seg.payload_size(),
+                        seg.send_count(),
+                        seg.is_mtu_probe(),
+                        true
+                    );
                     rec.high_rxt = seg.seq_nr();
                     rec.increment_total_transmitted_segments();
                     rec.pipe_estimate.pipe += seg.payload_size();
@@ -596,6 +728,16 @@ impl<T: Transport, Env: UtpEnvironment> VirtualSocket<T, Env> {
                         remaining_cwnd,
                         "sent ST_DATA"
                     );
+                    #[cfg(librqbit_utp_verif)]
+                    vs_xmit!(
+                        self,
+                        "new",
+                        item.seq_nr(),
+                        item.payload_size(),
+                        item.send_count(),
+                        item.is_mtu_probe(),
+                        self.recovery.is_recovering()
+                    );
                     remaining_cwnd -= item.payload_size();
                     sent_count += 1;
                 }
@@ -622,6 +764,8 @@ impl<T: Transport, Env: UtpEnvironment> VirtualSocket<T, Env> {
         if let Some((seq_nr, size)) = message_too_long {
             if self.user_tx_segments.pop_mtu_probe(seq_nr) {
                 debug!("popped too large MTU probe, will retry");
+                #[cfg(librqbit_utp_verif)]
+                vs_event!(self, "probe_pop", why = "emsgsize", seq = seq_nr, len = size);
                 self.segment_sizes.on_probe_failed(size);
                 self.segment_sizes.disarm_cooldown();
                 self.this_poll.restart = true;
@@ -751,6 +895,8 @@ impl<T: Transport, Env: UtpEnvironment> VirtualSocket<T, Env> {
                 "rfc6298 5.1",
             );
             self.last_sent_seq_nr = seq_nr;
+            #[cfg(librqbit_utp_verif)]
+            vs_xmit!(self, "fin", seq_nr, 0, 0, false, self.recovery.is_recovering());
             return Ok(true);
         }
         Ok(false)
@@ -815,6 +961,14 @@ impl<T: Transport, Env: UtpEnvironment> VirtualSocket<T, Env> {
                 payload_size,
             } => {
                 debug!(payload_size, ?self.last_sent_seq_nr, ?rewind_to, "MTU probe expired");
+                #[cfg(librqbit_utp_verif)]
+                vs_event!(
+                    self,
+                    "probe_pop",
+                    why = "expired",
+                    seq = rewind_to + 1,
+                    len = payload_size
+                );
                 // In case the retransmit timer expired, this is not "real" expiry, but expiry due to us sending
                 // too large segment. So ignore the retransmit timer, pretend it didn't fire.
                 self.timers.retransmit.turn_off("MTU probe is not real RTO");
@@ -872,6 +1026,21 @@ impl<T: Transport, Env: UtpEnvironment> VirtualSocket<T, Env> {
 
             let is_mtu_probe = payload_size > min_ss as usize;
 
+            #[cfg(librqbit_utp_verif)]
+            vs_event!(
+                self,
+                "seg",
+                len = payload_size,
+                probe = is_mtu_probe,
+                pwnd = self.last_remote_window,
+                wnd_room = remote_window_remaining,
+                segmented = self.user_tx_segments.total_len_bytes(),
+                seg_pkts = self.user_tx_segments.total_len_packets(),
+                unsegmented = remaining,
+                ss = ss,
+                mss = min_ss,
+                nagle = self.socket_opts.nagle,
+            );
             if !self.user_tx_segments.enqueue(payload_size, is_mtu_probe) {
                 return Err(Error::BugCantEnqueue);
             }
@@ -905,6 +1074,16 @@ impl<T: Transport, Env: UtpEnvironment> VirtualSocket<T, Env> {
             trace!("just_before_death: {err:#}");
         } else {
             trace!("just_before_death: no error");
+        }
+        #[cfg(librqbit_utp_verif)]
+        match error {
+            Some(e) => vs_event!(
+                self,
+                "dying",
+                result = format!("{e:#}"),
+                state = self.state.name()
+            ),
+            None => vs_event!(self, "dying", result = "ok", state = self.state.name()),
         }
 
         if let Some(e) = error {
@@ -1058,6 +1237,24 @@ impl<T: Transport, Env: UtpEnvironment> VirtualSocket<T, Env> {
         let _span_g = span.enter();
 
         trace!("processing message");
+        #[cfg(librqbit_utp_verif)]
+        vs_event!(
+            self,
+            "recv",
+            t = msg.header.htype as u8,
+            seq = msg.header.seq_nr,
+            ack = msg.header.ack_nr,
+            wnd = msg.header.wnd_size,
+            sack = msg
+                .header
+                .extensions
+                .selective_ack
+                .map(|s| s.as_bytes().to_vec())
+                .unwrap_or_default(),
+            has_sack = msg.header.extensions.selective_ack.is_some(),
+            plen = msg.payload().len(),
+            state = self.state.name(),
+        );
 
         // Process state changes and invalid packets.
         use Type::*;
@@ -1110,6 +1307,8 @@ impl<T: Transport, Env: UtpEnvironment> VirtualSocket<T, Env> {
                     "dropping FIN, expected seq_nr to be {}",
                     self.last_consumed_remote_seq_nr + 1
                 );
+                #[cfg(librqbit_utp_verif)]
+                vs_event!(self, "disp", what = "fin_out_of_order", seq = hdr.seq_nr, n = 0, bytes = 0);
                 return Ok(Default::default());
             }
 
@@ -1233,6 +1432,8 @@ impl<T: Transport, Env: UtpEnvironment> VirtualSocket<T, Env> {
                     );
                     self.force_immediate_ack("duplicate ST_DATA");
                     METRICS.incoming_already_acked_data_packets.increment(1);
+                    #[cfg(librqbit_utp_verif)]
+                    vs_event!(self, "disp", what = "duplicate", seq = msg.header.seq_nr, n = 0, bytes = 0);
                     return Ok(result);
                 }
 
@@ -1271,14 +1472,27 @@ impl<T: Transport, Env: UtpEnvironment> VirtualSocket<T, Env> {
                         self.consumed_but_unacked_bytes =
                             self.consumed_but_unacked_bytes.saturating_add(bytes);
                         trace!(self.consumed_but_unacked_bytes);
+                        #[cfg(librqbit_utp_verif)]
+                        vs_event!(
+                            self,
+                            "disp",
+                            what = if sequence_numbers > 0 { "consumed" } else { "out_of_order" },
+                            seq = hdr.seq_nr,
+                            n = sequence_numbers,
+                            bytes = bytes
+                        );
                     }
                     AssemblerAddRemoveResult::Unavailable(_) => {
                         debug_every_ms!(500, header=%hdr.short_repr(), offset,
                             ?self.last_consumed_remote_seq_nr, "cannot reassemble message, ignoring it");
+                        #[cfg(librqbit_utp_verif)]
+                        vs_event!(self, "disp", what = "unavailable", seq = hdr.seq_nr, n = 0, bytes = 0);
                     }
                     AssemblerAddRemoveResult::AlreadyPresent => {
                         debug_every_ms!(500, header=%hdr.short_repr(), offset,
                             ?self.last_consumed_remote_seq_nr, "already present in assembler");
+                        #[cfg(librqbit_utp_verif)]
+                        vs_event!(self, "disp", what = "already_present", seq = hdr.seq_nr, n = 0, bytes = 0);
                     }
                 }
 
@@ -1310,6 +1524,19 @@ impl<T: Transport, Env: UtpEnvironment> VirtualSocket<T, Env> {
                 self.force_immediate_ack("ST_FIN received");
 
                 // TODO: if offset < 0, there's something very weird going on, do whatever.
+                #[cfg(librqbit_utp_verif)]
+                vs_event!(
+                    self,
+                    "disp",
+                    what = if !previously_seen_remote_fin && offset >= 0 {
+                        "fin_accepted"
+                    } else {
+                        "fin_repeat"
+                    },
+                    seq = hdr.seq_nr,
+                    n = 0,
+                    bytes = 0
+                );
                 if !previously_seen_remote_fin && offset >= 0 {
                     self.last_consumed_remote_seq_nr = hdr.seq_nr;
                     self.user_rx.add_remove(cx, msg, offset as usize)?;
@@ -1566,6 +1793,8 @@ impl<T: Transport, Env: UtpEnvironment> VirtualSocket<T, Env> {
 impl<T, E> Drop for VirtualSocket<T, E> {
     fn drop(&mut self) {
         METRICS.live_virtual_sockets.decrement(1);
+        #[cfg(librqbit_utp_verif)]
+        (self.verif_on_drop)(self.verif_ended);
         self.user_tx.mark_vsock_closed();
         self.user_rx.mark_vsock_closed();
     }
@@ -1782,9 +2011,51 @@ impl<T: Transport, E: UtpEnvironment> UtpStreamStarter<T, E> {
             recovery: Recovery::default(),
             #[cfg(feature = "per-connection-metrics")]
             metrics: crate::metrics::PerConnectionMetrics::new(socket.bind_addr(), remote),
+            #[cfg(librqbit_utp_verif)]
+            verif_conn_id_recv: conn_id_recv,
+            #[cfg(librqbit_utp_verif)]
+            verif_ended: false,
+            #[cfg(librqbit_utp_verif)]
+            verif_on_drop: {
+                let env = socket.env.copy();
+                let local = socket.bind_addr();
+                Box::new(move |ended: bool| {
+                    verif_event!(
+                        env,
+                        "vsock_drop",
+                        local = local,
+                        remote = remote,
+                        cid = conn_id_recv,
+                        ended = ended
+                    )
+                })
+            },
         };
 
         METRICS.live_virtual_sockets.increment(1);
+        #[cfg(librqbit_utp_verif)]
+        vs_event!(
+            vsock,
+            "conn_new",
+            cid_send = conn_id_send,
+            incoming = matches!(state, VirtualSocketState::SynReceived),
+            seq_nr = seq_nr,
+            rnxt = last_consumed_remote_seq_nr,
+            pwnd = remote_window,
+            mss = ss.mss(),
+            max_ss = ss.max_ss(),
+            rto = vsock.rtte.retransmission_timeout(),
+            rx_buf = socket.opts().vsock_rx_bufsize.get(),
+            tx_init = socket.opts().vsock_tx_bufsize_bytes_initial.get(),
+            tx_max = socket.opts().vsock_tx_bufsize_bytes_max.get(),
+            nagle = socket.opts().nagle,
+            max_retx = socket.opts().max_segment_retransmissions.get(),
+            inactivity = socket.opts().remote_inactivity_timeout,
+            wait_last_ack = socket.opts().wait_for_last_ack,
+            probe_retx = socket.opts().mtu_probe_max_retransmissions,
+            link_mtu = socket.opts().link_mtu,
+            limit = socket.opts().max_active_streams.get(),
+        );
 
         let stream = UtpStream::new(read_half, write_half, vsock.remote);
         UtpStreamStarter {
@@ -1914,7 +2185,15 @@ impl Timers {
 impl<T: Transport, Env: UtpEnvironment> std::future::Future for VirtualSocket<T, Env> {
     type Output = crate::Result<()>;
 
+    #[cfg_attr(librqbit_utp_verif, allow(unreachable_code))]
     fn poll(self: std::pin::Pin<&mut Self>, cx: &mut std::task::Context<'_>) -> Poll<Self::Output> {
+        #[cfg(librqbit_utp_verif)]
+        {
+            let this = self.get_mut();
+            let result = this.poll(cx);
+            this.verif_poll_end(&result);
+            return result;
+        }
         self.get_mut().poll(cx)
     }
 }
